@@ -45,18 +45,25 @@ func plans(thorough bool) []planT {
 	hA := []string{"u-storage", "u-storage2", "destroy-ub", "u-storage", "vote1", "u-storage2", "u-storage"}
 	hB := []string{"vote1", "u-storage2", "max-traceable", "u-storage", "u-storage2", "unvote1", "u-storage"}
 	hC := []string{"deploy-uc", "u-storage", "deploy-uc", "destroy-ub", "u-storage2", "u-storage", "deploy-uc"}
+	// hS: UB = {a:1} and UC = {a:1} at heights 6..7 (a shared inner node), UC changes at 8, UB dies at 9
+	hS := []string{"deploy-uc", "ub-a1", "uc-a1", "u-storage", "uc-a2", "destroy-ub", "u-storage2"}
 	if !thorough {
 		return []planT{
 			{i2, hA, []ptT{{7, 5}}, []string{"mpt"}, []string{"lo", "rdfs"}, q},
 			{i2, hA, []ptT{{5, 0}}, []string{"mpt"}, []string{"lo"}, q},
 			{i2, hB, []ptT{{9, 5}}, []string{"mpt"}, []string{"dfs"}, q},
-			{i2, hC, []ptT{{7, 5}}, []string{"mpt"}, []string{"hi"}, q},
+			{i2, hS, []ptT{{7, 5}}, []string{"mpt"}, []string{"hi"}, q},
 			{i2, hA, []ptT{{7, 5}}, []string{"items"}, []string{"-"}, qi},
 		}
 	}
 	t := profT{Budget: 1, Tail: 9, Sub: true, SubTrunc: true, RestartTip: true, AllBytes: true, ItemBatch: 3}
 	ti := t
 	ti.ItemsFree = true
+	// two environment deviations (flush/restart/crash/header split) per trace, or one order deviation
+	t2 := t
+	t2.Budget, t2.OrderCost = 2, 2
+	ti2 := ti
+	ti2.Budget, ti2.OrderCost = 2, 2
 	i3 := famT{Name: "single-i3-mtb3", I: 3, MTB: 3, Pad: 1}
 	i4 := famT{Name: "single-i4-mtb2", I: 4, MTB: 2, Pad: 2}
 	m2 := famT{Name: "multi-i2-mtb2", I: 2, MTB: 2, Multi: true}
@@ -67,11 +74,15 @@ func plans(thorough bool) []planT {
 		{i2, hA, []ptT{{7, 5}, {9, 5}, {9, 7}, {5, 0}, {7, 0}}, []string{"mpt"}, all, t},
 		{i2, hB, []ptT{{7, 5}, {9, 5}, {5, 0}}, []string{"mpt"}, all, t},
 		{i2, hC, []ptT{{7, 5}, {9, 7}, {5, 0}}, []string{"mpt"}, all, t},
+		{i2, hS, []ptT{{7, 5}, {9, 7}}, []string{"mpt"}, all, t},
 		{i2, hD, []ptT{{7, 5}, {9, 5}}, []string{"mpt"}, []string{"lo", "rdfs"}, t},
 		{i3, hE, []ptT{{10, 7}, {7, 0}}, []string{"mpt"}, []string{"lo", "rdfs"}, t},
 		{i4, hA, []ptT{{11, 9}, {9, 0}}, []string{"mpt"}, []string{"lo", "dfs"}, t},
 		{m2, hA, []ptT{{7, 5}, {5, 0}}, []string{"mpt"}, []string{"lo", "rdfs"}, t},
-		{i2, hA, []ptT{{7, 5}, {9, 5}, {5, 0}}, []string{"items"}, []string{"-"}, ti},
+		{i2, hA, []ptT{{9, 7}}, []string{"mpt"}, []string{"lo"}, t2},
+		{i2, hS, []ptT{{9, 5}}, []string{"mpt"}, []string{"rdfs"}, t2},
+		{i2, hA, []ptT{{7, 5}}, []string{"items"}, []string{"-"}, ti2},
+		{i2, hA, []ptT{{9, 5}, {5, 0}}, []string{"items"}, []string{"-"}, ti},
 		{i2, hB, []ptT{{9, 5}}, []string{"items"}, []string{"-"}, ti},
 		{i3, hE, []ptT{{10, 7}}, []string{"items"}, []string{"-"}, ti},
 	}
@@ -128,7 +139,7 @@ func TestCheck(t *testing.T) {
 	for i, c := range confs {
 		x.push(job{c: c, ci: i, budget: c.prof.Budget})
 		cfgNames = append(cfgNames, c.name())
-		trieInfo[fmt.Sprintf("%s/P%d", c.src.id, c.P)] = map[string]int{"trie_nodes": len(c.trie.Nodes), "nodes_on_several_paths": c.trie.Multi, "storage_items": len(c.items), "tip": int(c.src.tip)}
+		trieInfo[fmt.Sprintf("%s/P%d", c.src.id, c.P)] = map[string]int{"trie_nodes": len(c.trie.Nodes), "nodes_on_several_paths": c.trie.Multi, "inner_nodes_on_several_paths": c.trie.MultiInner, "storage_items": len(c.items), "tip": int(c.src.tip)}
 	}
 	fmt.Printf("c20/sync: %d configurations, sources built in %.1fs\n", len(confs), r.Elapsed())
 	x.run(r.Workers())
